@@ -20,7 +20,7 @@ DENY = ["zap", "zap a b"]
 def config_text(jail_cwd: str) -> str:
     return (f'deny zap "NOZAP"\nallow okcmd\nask askcmd "ASKMSG"\n'
             f"allow-redirect {jail_cwd}/out/*\nallow-redirect {jail_cwd}/sub/out/*\ndeny-redirect {jail_cwd}/secret/* \"NOSECRET\"\n"
-            f"allow-redirect {jail_cwd}/only/*\nallow-redirect {jail_cwd}/sub/deep/*\n"
+            f"allow-redirect {jail_cwd}/only/*\nallow-redirect {jail_cwd}/sub/deep/*\nallow-redirect ~/*\n"
             f"ask-redirect {jail_cwd}/askme/*\n")
 
 
@@ -184,7 +184,7 @@ CD_LOOPS = [("while {A}; do {B}; done", ["cd sub", "cd sub && false", "cd nosuch
             ("while true; do {A} || exit 0; {B}; done", [])]
 CD_A = ["cd sub", "cd sub && false", "cd sub || true", "cd nosuch", "cd sub; false", "! cd sub", "cd sub > /dev/null", "X=1 cd sub", "pushd sub",
         "cd ./sub/", "cd sub/../sub", "cd sub && cd ..", "cd sub; cd sub", "cd -- sub", "cd -P sub", 'cd "$PWD"/sub', "cd $(echo sub)", "cd sub/.. && cd sub",
-        "cd /", "cd .", "cd", "builtin cd sub", "command cd sub", "eval cd sub", "test -d sub && cd sub", "cd sub 2> /dev/null || exit 1"]
+        "cd /", "cd .", "cd", "cd -", "cd sub && cd -", "cd ~-", "cd ~+", "cd - > /dev/null", "builtin cd sub", "command cd sub", "eval cd sub", "test -d sub && cd sub", "cd sub 2> /dev/null || exit 1"]
 CD_B = ["ls > only/g", "ls > deep/g", "ls >> ./only/g", "cat f > deep/../deep/g"]
 
 
